@@ -116,7 +116,7 @@ def gen_sweep(rnd):
         if pname not in exprs_yaml:
             r = rnd.random()
             if r < 0.5:
-                config[pname] = rnd.choice(["cfg", 9])
+                config[pname] = rnd.choice(["cfg", 9, 0, False, "", 0.0, None, []])      # falsy values are values too
             elif r < 0.7:
                 ctx0[pname] = "ctx_" + pname
             # else: default or missing
